@@ -28,6 +28,16 @@ Round 3 additions (classes, not instances):
   inspect_attributes() lists (`hid:*`) is measured as well: it must be carried over by value unless it
   is per-instance identity (two clones of the same parent differ in it), must not be shared, and must
   not be changed by an operation on another agent.
+
+Source translation (`pre_gate`, before the Lean gate): `py2lean_clone.py` translates, from the source text of
+agilerl/algorithms/core/base.py and agilerl/wrappers/agent.py of the tree under test, the if-chain of
+`copy_attributes` (decision function `copyAttr` / `copyRule`), the listing predicate of `inspect_attributes`, and
+the phases of `EvolvableAlgorithm.clone` / `AgentWrapper.clone` in source order into `lean/Gen/CloneGen.lean`;
+`Proofs/CloneGenEq.lean` proves them equal to the explicit clone semantics of `Model/Heap.lean` (and the rule
+table derived from them equal to `ruleOf false`, which the driver uses); `Props/C01.lean` restates the C01
+theorems for the generated table (`C01_source_translation_*`).  `walker.classify` (which hard-codes the branch
+order) is compared with the order read from the source.  A failure is a gate problem naming the broken
+declaration; the suites below then supply the failing history if there is one.
 """
 from __future__ import annotations
 
@@ -858,6 +868,36 @@ def report(chk: Check, case, res, shrink=True):
         else:
             chk.violation(f"{label}/{fam}: model expects by-reference sharing that the implementation no longer has: "
                           + "; ".join(nm(p) for p in sorted(missing)[:4]) + " (property oracle holds)", replay, no_input=True)
+
+
+def pre_gate(chk: Check) -> None:
+    """Regenerate lean/Gen/CloneGen.lean from the source text of EvolvableAlgorithm.{inspect_attributes,
+    copy_attributes, clone} and AgentWrapper.clone of the tree under test (before the Lean gate) and re-check
+    `generated = explicit clone semantics of Model/Heap.lean` (Proofs/CloneGenEq.lean) and the theorems over the
+    generated rule table (Props/C01.lean, `C01_source_translation_*`).  A failure is a gate problem naming the
+    broken declaration; the suites below then supply the failing history.  Also: walker.classify hard-codes the
+    branch order of copy_attributes — it is compared with the order read from the source on a zoo of values."""
+    import common
+    import py2lean_clone
+    common.translation_gate(chk, py2lean_clone, "Gen/CloneGen.lean", ["Gen.CloneGen", "Proofs.CloneGenEq", "Props.C01"],
+                            "what clone() does to each attribute: the decision table of copy_attributes, the members "
+                            "inspect_attributes lists, the phases of EvolvableAlgorithm.clone and AgentWrapper.clone "
+                            "in source order")
+    info = chk.corr.get("source_translation", {}).get("Gen/CloneGen.lean", {})
+    try:
+        branches = py2lean_clone.branch_classes(common.REPO)
+        bad = walker.classify_consistency(branches)
+    except py2lean_clone.Unsupported:
+        return                                       # already recorded by the translation gate
+    except Exception as e:  # noqa: BLE001  (agilerl of the tree under test does not import: the suites will say so)
+        info["classify_consistency"] = f"not checked: {type(e).__name__}: {str(e)[:120]}"
+        return
+    info["classify_branch_order"] = branches
+    info["classify_consistency"] = "consistent" if not bad else bad[:6]
+    if bad:
+        chk.gate.setdefault("problems", []).append(
+            "walker.classify (kind tokens handed to the Lean heap model) no longer follows the branch order of "
+            "copy_attributes as read from the source: " + "; ".join(bad[:3]))
 
 
 def run(chk: Check) -> None:
